@@ -208,6 +208,7 @@ fn observe_lib(c: &Value, wd: &Path, files: &[String], agc: &str) -> Result<Valu
         queue_capacity: 2usize << 30,
         fallback_frac: 0.0,
         pack_size: c["pack"].as_u64().unwrap_or(50) as usize,
+        level: 17,
     };
     let (class, msg) = match util::catch(std::panic::AssertUnwindSafe(|| create_like_cli(&o))) {
         Ok(Ok(())) => ("ok", String::new()),
@@ -507,7 +508,7 @@ fn probe_segments(reference: &[u8], contig_len: usize, k: u64, seg: u64, mm: u64
         std::fs::write(&fa, reference)?;
         let agc = td.path().join("p.agc").to_string_lossy().to_string();
         create_like_cli(&CreateOpts { files: vec![fa.to_string_lossy().to_string()], out: agc.clone(), k: k as usize, segment_size: seg as usize,
-            min_match: mm as usize, threads: 1, queue_capacity: 2usize << 30, fallback_frac: 0.0, pack_size: 50 })?;
+            min_match: mm as usize, threads: 1, queue_capacity: 2usize << 30, fallback_frac: 0.0, pack_size: 50, level: 17 })?;
         let mut d = Decompressor::open(&agc, DecompressorConfig { verbosity: 0 })?;
         let s = d.list_samples();
         let c = d.list_contigs(&s[0])?;
